@@ -71,10 +71,20 @@ def digest(*objs):
 
 
 # ------------------------------------------------- value-identical presentations ----
-ND_PRESENTATIONS = ["strided", "negstride", "rowstrided", "fortran", "readonly"]
+ND_PRESENTATIONS = ["strided", "negstride", "rowstrided", "fortran", "readonly",
+                    "bigendian", "subclass", "memmap"]
 # ("f32" exists below but is not a default: float32 input is legitimately processed
 # in float32 arithmetic by several functions, so results differ at the 1e-7 level)
+# ("masked-nomask" exists too and is not a default either: numpy's masked arithmetic
+# masks invalid results instead of returning NaN, so a masked array is not "the same
+# numbers" to any function that relies on NaN propagation)
 OTHER_PRESENTATIONS = ["list", "pandas", "pandas-idx", "int"]
+# ndarray presentations that the unchanged library itself does not accept, with the
+# reason (a refusal is then counted, not reported; a result, if given, must still match)
+REFUSED_BY_DEPENDENCY = {
+    ("standard_normal", "bigendian"): "pandas.Series.rank refuses arrays in non-native "
+                                      "byte order",
+}
 
 
 def present(a, kind):
@@ -129,6 +139,30 @@ def present(a, kind):
             b = a.astype(np.float32)
             same = (b.astype(np.float64) == a) | np.isnan(a)
         return b if bool(np.all(same)) else None
+    if kind == "bigendian":
+        # value-identical array in the other byte order (data read from a binary file)
+        if a.dtype.kind not in "fiu" or a.dtype.itemsize == 1:
+            return None
+        return a.astype(a.dtype.newbyteorder(">"))
+    if kind == "subclass":
+        class Labelled(np.ndarray):         # an ndarray subclass that adds nothing
+            pass
+        return np.ascontiguousarray(a.copy()).view(Labelled)
+    if kind == "masked-nomask":
+        return np.ma.masked_array(a.copy())
+    if kind == "memmap":
+        # a read-only memory-mapped file holding the same numbers
+        import tempfile
+        d = os.environ.get("HYVERIF_WORK") or tempfile.gettempdir()
+        os.makedirs(d, exist_ok=True)
+        fd, fn = tempfile.mkstemp(prefix="mm-", suffix=".bin", dir=d)
+        os.close(fd)
+        try:
+            np.ascontiguousarray(a).tofile(fn)
+            mm = np.memmap(fn, dtype=a.dtype, mode="r", shape=a.shape)
+        finally:
+            os.unlink(fn)            # the mapping stays valid after the name is gone
+        return mm
     if kind == "int":
         if a.dtype != np.float64 or not bool(np.all(np.isfinite(a))) or \
                 not bool(np.all(a == np.round(a))) or bool(np.any(np.abs(a) > 2 ** 52)):
@@ -297,7 +331,7 @@ class Ctx:
             try:
                 r = fn(*args)
             except Exception as e:
-                if kind in ND_PRESENTATIONS:
+                if kind in ND_PRESENTATIONS and (label, kind) not in REFUSED_BY_DEPENDENCY:
                     self.check("presentation.accepted", False,
                                f"{label}|raises-on-{kind}-input", case,
                                {"exc": repr(e)[:300], "presentation": kind,
@@ -447,6 +481,8 @@ class Ctx:
         """Record one evaluation of predicate `pred`; on failure record a violation
         under the mechanism key `key` (defaults to pred)."""
         self.predicates[pred] += 1
+        if isinstance(case, dict):
+            self._last_case = case
         if ok:
             return True
         self.violate(key or pred, pred, case, detail)
@@ -467,6 +503,10 @@ class Ctx:
                                "detail": jsonable(detail)})
 
     def result(self):
+        if not self.samples and getattr(self, "_last_case", None) is not None:
+            # the module's own sampling rule picked nothing on this shard: show the last
+            # judged case rather than nothing
+            self.sample(self._last_case)
         return {
             "prop": self.prop, "shard": self.shard,
             "evaluations": self.evaluations,
